@@ -185,7 +185,7 @@ pub fn replay(case: &Value) -> Result<String, String> {
         Some(t) => t.to_string(),
         None => {
             let id = case["case"].as_str().ok_or("case")?;
-            crate::gram::generate(2).iter().find(|c| c.id() == id).ok_or("unknown case")?.text()
+            crate::gram::find_case(id).ok_or("unknown case")?.text()
         }
     };
     let j = judge_text(&text);
